@@ -781,3 +781,23 @@ End TS.
 
 
 
+
+(* ---------------------------------------------------------------- *)
+(* property C03 at the level of the engine: the column of a rule node without rounding has the
+   declared dtype whatever the data, and each cell is the rule applied to that row's arguments
+   (parameters partialled in by name), cast to the declared dtype *)
+Theorem rule_node_cells ft P rounding nrows n py f t cs c :
+  d_kind n = KRule py false None -> flookup py ft = Some f -> annot_otype (f_ret f) = Some t -> cs <> [] ->
+  sem ft P rounding nrows n cs = Ok c ->
+  col_dtype c = t /\
+  forall i row, nth_error (rows_of nrows cs) i = Some row ->
+    exists args v w, row_args P f (d_args n) row = Ok args /\ call_rule ft f args = Ok v /\ cast t v = Ok w /\ nth_error (col_vals c) i = Some w.
+Proof.
+  intros Hk Hf Ht Hne Es. unfold sem in Es. rewrite Hk, Hf in Es. cbn [of_option bind] in Es. rewrite Ht in Es.
+  destruct cs as [|c1 cr]; [contradiction|].
+  destruct (vectorize_gen (Some t) _ nrows (c1 :: cr)) as [c0|] eqn:E0; cbn [bind] in Es; [|discriminate]. injection Es as <-.
+  destruct (vectorize_declared t _ nrows (c1 :: cr) c0 E0) as [Hd Hcells]. split; [exact Hd|].
+  intros i row Hi. destruct (Hcells i row Hi) as (v & w & Hv & Hw & Hn).
+  destruct (row_args P f (d_args n) row) as [args|] eqn:Ea; cbn [bind] in Hv; [|discriminate].
+  exists args, v, w. auto.
+Qed.
